@@ -98,6 +98,10 @@ var leakOps = map[string]leakOp{
 	"BufferWithTimeOrCount": {func(s ro.Observable[int], r *Recorder) ro.Subscription {
 		return subAny(ro.BufferWithTimeOrCount[int](2, time.Millisecond)(s), r)
 	}, true},
+	// only count-triggered batches (the ticker never fires): the batch is delivered from the source's callback
+	"BufferWithTimeOrCountByCount": {func(s ro.Observable[int], r *Recorder) ro.Subscription {
+		return subAny(ro.BufferWithTimeOrCount[int](2, time.Hour)(s), r)
+	}, true},
 	"SampleTime": {func(s ro.Observable[int], r *Recorder) ro.Subscription {
 		return subAny(ro.SampleTime[int](time.Millisecond)(s), r)
 	}, true},
@@ -223,7 +227,15 @@ func runLeakCase(c *Case) string {
 			}
 		}
 		for i := range script {
-			probe.push(i)
+			// a push that never returns (a teardown run from inside the delivery waits for a lock the emitting goroutine
+			// holds): reported, not waited for
+			pushed := make(chan struct{})
+			go func(i int) { defer close(pushed); probe.push(i) }(i)
+			select {
+			case <-pushed:
+			case <-time.After(2 * time.Second):
+				return fmt.Sprintf("res %s leaked=1 released=0 closed=0 who=push-%d-never-returned", c.id, i)
+			}
 			time.Sleep(300 * time.Microsecond)
 		}
 	} else {
